@@ -18,6 +18,7 @@ import (
 	"github.com/folbricht/desync"
 
 	"verif/dsu"
+	"verif/fakes"
 	"verif/harness"
 )
 
@@ -39,6 +40,7 @@ type cliMember struct {
 	content []string // per chunk: valid | missing | invalid
 	loc     string
 	srv     *httptest.Server
+	s3      *fakes.S3
 	mu      sync.Mutex
 	gets    map[string]int // http: GET requests per chunk id
 	puts    int
@@ -50,7 +52,10 @@ func chunkPath(dir string, id desync.ChunkID) string {
 }
 
 func newCLIMember(rng *rand.Rand, base, name string, ids []desync.ChunkID, data [][]byte, fill int, writable bool) *cliMember {
-	m := &cliMember{name: name, kind: []string{"local", "http"}[rng.Intn(2)], dir: filepath.Join(base, name), gets: map[string]int{}}
+	m := &cliMember{name: name, kind: []string{"local", "http", "s3"}[rng.Intn(3)], dir: filepath.Join(base, name), gets: map[string]int{}}
+	if writable && m.kind == "s3" {
+		m.kind = "local"
+	}
 	os.MkdirAll(m.dir, 0755)
 	ls, err := desync.NewLocalStore(m.dir, desync.StoreOptions{})
 	dsu.Must(err)
@@ -70,6 +75,19 @@ func newCLIMember(rng *rand.Rand, base, name string, ids []desync.ChunkID, data 
 		}
 	}
 	m.loc = m.dir
+	if m.kind == "s3" {
+		// the same objects in a bucket of the S3 stand-in
+		m.s3 = fakes.NewS3("bucket")
+		filepath.Walk(m.dir, func(p string, info os.FileInfo, err error) error {
+			if err == nil && !info.IsDir() {
+				rel, _ := filepath.Rel(m.dir, p)
+				b, _ := os.ReadFile(p)
+				m.s3.Put("pfx/"+rel, b)
+			}
+			return nil
+		})
+		m.loc = "s3+" + m.s3.Srv.URL + "/bucket/pfx?lookup=path"
+	}
 	if m.kind == "http" {
 		m.failing = !writable && rng.Intn(4) == 0
 		// the server passes stored bytes through unverified; the client is the one that verifies
@@ -97,6 +115,9 @@ func newCLIMember(rng *rand.Rand, base, name string, ids []desync.ChunkID, data 
 }
 
 func (m *cliMember) close() {
+	if m.s3 != nil {
+		m.s3.Close()
+	}
 	if m.srv != nil {
 		m.srv.Close()
 	}
@@ -248,7 +269,10 @@ func cliChain(c *harness.Ctx) {
 			events["fill"] = true
 		}
 	}
-	full := append([]string{cmdName, "-n", "1", "-e", "0"}, args...)
+	// error-retry 0, or 1 and more with a tiny interval (a chunk that simply is not there must stay "missing" however
+	// often the store is asked again)
+	retry := []string{"0", "0", "1", "3"}[rng.Intn(4)]
+	full := append([]string{cmdName, "-n", "1", "-e", retry, "-b", "1ms"}, args...)
 	out := filepath.Join(base, "out")
 	if cmdName == "cat" {
 		full = append(full, idxPath)
@@ -256,7 +280,7 @@ func cliChain(c *harness.Ctx) {
 		full = append(full, idxPath, out)
 	}
 	cmd := exec.Command(cliBin, full...)
-	cmd.Env = append(os.Environ(), "HOME="+base)
+	cmd.Env = append(os.Environ(), "HOME="+base, "S3_ACCESS_KEY=key", "S3_SECRET_KEY=secret", "S3_REGION=us-east-1")
 	var stdout, stderr bytes.Buffer
 	cmd.Stdout = &stdout
 	cmd.Stderr = &stderr
